@@ -304,13 +304,13 @@ def run(prop: str, tier_: str) -> int:
                      'encrypted': sum(1 for x in good if x['obs']['has_senc']), 'tfdt_v1': sum(1 for x in good if x['obs']['tfdt_v'] == 1),
                      'bug_saio': sum(1 for x in good if x['bug_saio'])}
             for k, v_ in feats.items():
-                if v_ == 0:
+                if v_ == 0 and not out.violations:       # a feature that never shows is vacuity only when nothing else is wrong
                     raise MachineryFailure(f'vacuity guard: no response exercised "{k}"')
         else:
             feats = {'with_pssh': sum(1 for x in good if x['obs']['pssh']), 'two_pssh': sum(1 for x in good if len(x['obs']['pssh']) > 1),
                      'mehd_removed': sum(1 for x in good if x['obs']['mehd_removed']), 'mps_routes': sum(1 for x in good if x['url'].startswith('/mps'))}
             for k, v_ in feats.items():
-                if v_ == 0:
+                if v_ == 0 and not out.violations:
                     raise MachineryFailure(f'vacuity guard: no response exercised "{k}"')
         out.coverage.update({
             'states': ra.distinct, 'transitions': max(1, ra.generated), 'traces_validated_against_impl': len(good),
